@@ -21,6 +21,14 @@ def gen(rng):
     net, truth, meta = netgen.make_network(rng, dim=dim, n=n, n_fixed=rng.randint({1: 1, 2: 2, 3: 2}[dim], 3), datum="fixed", noise=0.0,
                                            kinds=kinds, extra=rng.choice([0.3, 0.8]), approx=("perturbed" if approx == "perturbed" else approx),
                                            perturb=rng.choice([0.02, 0.2]), with_heights=rng.random() < 0.6)
+    if dim == 3 and rng.random() < 0.35:
+        # planimetry known, heights to be derived (zenith angles / height differences)
+        meta["approx"] = approx = "z-omitted"
+        for p in net["points"]:
+            if "adj" in p:
+                x, y, z = truth[p["id"]]
+                p["x"], p["y"] = x, y
+                p.pop("z", None)
     if approx == "exact":
         for p in net["points"]:
             x, y, z = truth[p["id"]]
@@ -33,7 +41,43 @@ def gen(rng):
     if dim != 1 and rng.random() < 0.3:
         netgen.add_coordinates_cluster(rng, net, truth, rng.sample(ids, 2), dim=dim, noise=0.0)
     meta["approx"] = approx
+    if approx == "z-omitted":
+        meta["approx"] = "omitted"
+        meta["z_only"] = True
     return net, truth, meta
+
+
+def gen_station(rng):
+    """a free station observing direction + slope distance + zenith angle to fixed targets that are all above or all
+    below it (or mixed); approximate coordinates of the station: xy given and z omitted / all omitted / all given"""
+    terrain = rng.choice(["valley", "hill", "mixed"])
+    k = rng.randint(3, 4)
+    S = (1000.0 + rng.uniform(0, 50), 2000.0 + rng.uniform(0, 50), 100.0)
+    truth = {"S": S}
+    pts = []
+    for i in range(k):
+        ang = 2 * math.pi * i / k + rng.uniform(-0.3, 0.3)
+        d = rng.uniform(80, 200)
+        dz = rng.uniform(15, 45) * {"valley": 1, "hill": -1, "mixed": (1 if i % 2 else -1)}[terrain]
+        truth["T%d" % i] = (S[0] + d * math.cos(ang), S[1] + d * math.sin(ang), S[2] + dz)
+        x, y, z = truth["T%d" % i]
+        pts.append({"id": "T%d" % i, "x": x, "y": y, "z": z, "fix": "xyz"})
+    mode = rng.choice(["xy-given-z-omitted", "xy-given-z-omitted", "omitted", "exact"])
+    sp = {"id": "S", "adj": "xyz"}
+    if mode != "omitted":
+        sp["x"], sp["y"] = S[0], S[1]
+    if mode == "exact":
+        sp["z"] = S[2]
+    obs = []
+    orient = rng.uniform(0, 2 * math.pi)
+    for i in range(k):
+        for t in ("direction", "s-distance", "z-angle"):
+            ob = {"t": t, "to": "T%d" % i, "stdev": 5.0}
+            ob["val"] = netgen.obs_value(ob, truth, orient, "S")
+            obs.append(ob)
+    net = {"attrs": {"axes-xy": "ne", "angles": "left-handed"}, "params": {"sigma-apr": 10.0, "tol-abs": 1000.0},
+           "description": "free station", "points": pts + [sp], "clusters": [{"kind": "obs", "from": "S", "obs": obs}]}
+    return net, truth, {"dim": 3, "approx": "omitted" if mode != "exact" else "exact", "terrain": terrain, "mode": mode, "station": True}
 
 
 def check_truth(res, truth, tol=5e-6):
@@ -66,7 +110,7 @@ def run(ctx):
     n = 24 if ctx.quick else 250
     bad = 0
     for t in range(n):
-        net, truth, meta = gen(ctx.rng)
+        net, truth, meta = gen_station(ctx.rng) if t % 4 == 3 else gen(ctx.rng)
         nobs = netgen.count_obs(net)
         algs = [ctx.rng.choice(enet.ALGS)] if ctx.quick else enet.ALGS
         outs, txt = enet.run_all(ctx, bdir, net, "c06_%d" % t, algs=algs, outputs=("xml", "text"))
